@@ -331,6 +331,56 @@ theorem history_all_invariants_discovery (cfg : Config) (hhold : cfg.hold = true
     · exact Or.inr (hafter [] [b.id] hI hJ hH)
     · exact Or.inr (hafter _ [Lb.id] hI hJ hH)
 
+/-- **C01 as it is stated, for the hub's configuration** (no LIB to start with, blocks held until one is discovered):
+    either nothing is ever delivered, or there is a block `base` — the discovered LIB, or the parent of a block that is
+    its own LIB — such that the consumer that starts on `base` holding nothing, pushes on New and pops on Undo and
+    ignores every other event accepts the whole event stream and holds one parent-linked chain rooted at `base`. -/
+theorem push_pop_consumer_discovery (cfg : Config) (hhold : cfg.hold = true) (hnew : cfg.matches .new = true)
+    (hundo : cfg.matches .undo = true) (hirr : cfg.matches .irreversible = true)
+    (U : Id → Option Blk) (hU : UOK U) (h : List Blk) (s : FState) (hP : PreInv U s)
+    (hin : ∀ b ∈ h, U b.id = some b) (hL : LibHistOK cfg s h) :
+    (runHistory cfg s h).2 = [] ∨
+    ∃ base c', (⟨base, []⟩ : SC).runSB ((runHistory cfg s h).2.map sbOf) = some c' ∧ c'.Chain := by
+  induction h generalizing s with
+  | nil => exact Or.inl rfl
+  | cons b r ih =>
+    have hd := discovery_step cfg hhold hnew hundo hirr U hU s b hP (hin b (by simp)) hL.1
+    rw [runHistory_cons]
+    simp only
+    -- once the LIB is known: the rest of the history, seen by the push/pop consumer that follows `CS`
+    have hrest : ∀ (P : List Id) (F : List Id) (st : SC), Inv (processBlock cfg s b none).1 P →
+        Inv2 U F (processBlock cfg s b none).1.db → Follows ⟨(processBlock cfg s b none).1.db.libRef.id, P⟩ st → st.Chain →
+        ∃ c', st.runSB ((runHistory cfg (processBlock cfg s b none).1 r).2.map sbOf) = some c' ∧ c'.Chain := by
+      intro P F st hI hJ hf hc
+      obtain ⟨P', hrun, _⟩ := history_discipline_consistent cfg hnew hundo hirr U hU r F _ P hI hJ
+        (fun x hx => hin x (by simp [hx])) hL.2 (Or.inl (by rw [processBlock_includeInit]; exact hP.noInit))
+      obtain ⟨c', hr, _, hc'⟩ := follows_run _ _ st _ hf hc hrun
+      exact ⟨c', hr, hc'⟩
+    rcases hd with ⟨hP', hev⟩ | ⟨hlib, hevs, hI, hJ, _⟩ | ⟨Lb, news, hLid, hevs, hlinked, hI, hJ, _⟩
+    · rw [hev, List.nil_append]
+      exact ih _ hP' (fun x hx => hin x (by simp [hx])) hL.2
+    · -- the block is its own LIB: New b, Irreversible b
+      right
+      refine ⟨b.parent, ?_⟩
+      have hfirst : (⟨b.parent, []⟩ : SC).runSB ((processBlock cfg s b none).2.1.map sbOf) = some ⟨b.parent, [b]⟩ := by
+        rw [hevs]
+        simp [SC.runSB, SC.apply, SC.top]
+      obtain ⟨c', hr, hc'⟩ := hrest [] [b.id] ⟨b.parent, [b]⟩ hI hJ
+        ⟨[b], [], rfl, rfl, by rw [hlib]; simp [Blk.ref]⟩ ⟨rfl, trivial⟩
+      exact ⟨c', by rw [List.map_append, SC.runSB_append, hfirst]; exact hr, hc'⟩
+    · -- the LIB is a stored ancestor: the chain above it is delivered New, then the LIB itself is announced
+      right
+      refine ⟨Lb.id, ?_⟩
+      have hfirst : (⟨Lb.id, []⟩ : SC).runSB ((processBlock cfg s b none).2.1.map sbOf) = some ⟨Lb.id, news⟩ := by
+        rw [hevs, SC.runSB_append, SC.run_news Lb.id [] news (by simpa using hlinked)]
+        simp only [Option.bind_some, List.nil_append]
+        split
+        · rfl
+        · simp [SC.runSB, SC.apply]
+      obtain ⟨c', hr, hc'⟩ := hrest (news.map (·.id)) [Lb.id] ⟨Lb.id, news⟩ hI hJ
+        ⟨[], news, rfl, rfl, by rw [← hLid]; rfl⟩ hlinked
+      exact ⟨c', by rw [List.map_append, SC.runSB_append, hfirst]; exact hr, hc'⟩
+
 /-! ### the inclusive starting block (`WithInclusiveLIB`) -/
 
 /-- **a forkable started on an inclusive LIB**, fed any history of blocks of one consistent block tree: either nothing is
